@@ -61,7 +61,8 @@ RaceOps(kind, n) == [i \in 1..n |->
      [] kind = "CAS"    -> [op |-> "CAS", k |-> "s1", old |-> "nil", v |-> "a", ttl |-> "0"]
      [] kind = "IncrBy" -> [op |-> "IncrBy", k |-> "c1", n |-> 1]
      [] kind = "Append" -> [op |-> "Append", k |-> "l1", v |-> "a"]
-     [] kind = "ExpSet" -> [op |-> "Get", k |-> "s1"]]
+     [] kind = "ExpSet" -> [op |-> "Get", k |-> "s1"]
+     [] kind = "GetMut" -> [op |-> "Get", k |-> "s1"]]
 Fresh0 == [k \in AllKeys |-> NoneOf(k)]
 TrRace == /\ Is("Race")
           /\ LET ops == RaceOps(Ev.kind, Ev.n)
@@ -74,6 +75,11 @@ TrRace == /\ Is("Race")
                            \* the reference (KV.tla ReadsArePure, GhostsInvisible), so in every linearization the Set's value
                            \* is live afterwards: final = 1 means a Get after the round returned it.
                            [] Ev.kind = "ExpSet" -> Ev.final = 1
+                           \* GetMut: the key holds a live value for the whole round; some callers change its lifetime between
+                           \* never and long (SetExp / CAS to the same value - Apply keeps the entry present and live in both),
+                           \* the others Get / Exists it repeatedly.  In every linearization every read finds it:
+                           \* trues = number of callers whose reads all found the key (the mutators count as TRUE).
+                           [] Ev.kind = "GetMut" -> Ev.trues = Ev.n
              IN viol' = IF good THEN viol ELSE viol \cup {V("NotAtomic", Ev.be \o ":race:" \o Ev.kind)}
           /\ l' = l + 1 /\ UNCHANGED <<poss, dead>>
 
